@@ -124,7 +124,14 @@ def _expand(fi, call, mode, caller_names=frozenset()):
             mapping[p] = a
         else:
             rename[p] = p + SUFFIX
-            pre.append(ast.Assign(targets=[ast.Name(id=p + SUFFIX, ctx=ast.Store())], value=ast.parse(ast.unparse(a), mode="eval").body, lineno=call.lineno, col_offset=0))
+            val = ast.parse(ast.unparse(a), mode="eval").body
+            # allocation sites are told apart by line and column: keep the argument's own position (two deepcopy() arguments
+            # of one call must stay two sites)
+            for x in ast.walk(val):
+                x.lineno = getattr(a, "lineno", call.lineno)
+                x.col_offset = getattr(a, "col_offset", 0) + getattr(x, "col_offset", 0)
+                x.end_lineno, x.end_col_offset = x.lineno, x.col_offset
+            pre.append(ast.Assign(targets=[ast.Name(id=p + SUFFIX, ctx=ast.Store())], value=val, lineno=call.lineno, col_offset=0))
     for s in stored:
         if s not in params and s not in ("self", "cls") and s in caller_names:
             rename[s] = s + SUFFIX  # only on collision: rules recognise roles by the names the code uses
@@ -315,9 +322,10 @@ class _ExprInline(ast.NodeTransformer):
         params = [a.arg for a in fi.node.args.args]
         if fi.cls is not None and not fi.is_static and params and params[0] in ("self", "cls"):
             params = params[1:]
-        if n.keywords or len(n.args) != len(params) or any(isinstance(a, ast.Starred) for a in n.args):
+        if any(k.arg is None or k.arg not in params[len(n.args):] for k in n.keywords) or len(n.args) + len(n.keywords) != len(params) or any(isinstance(a, ast.Starred) for a in n.args):
             return n
         mapping = dict(zip(params, n.args))
+        mapping.update({k.arg: k.value for k in n.keywords})
         # an argument that is more than a name may be substituted only where it is used once (no duplicated evaluation)
         uses = {}
         for x in ast.walk(expr):
@@ -334,6 +342,14 @@ class _ExprInline(ast.NodeTransformer):
                 ast.copy_location(x, n)
         self.done.append((self.caller.qname, fi.qname))
         return new
+
+
+def _parent_stmt(root, node):
+    """the statement of `root` that directly holds expression `node` as its value (or None)"""
+    for st in ast.walk(root):
+        if isinstance(st, ast.stmt) and getattr(st, "value", None) is node:
+            return st
+    return None
 
 
 def _drop_identity(stmts):
@@ -408,6 +424,63 @@ def inline_new_helpers(prog):
                 used = any(isinstance(n, ast.Name) and n.id == fi.name for st in outer.node.body if st is not fi.node for n in ast.walk(st))
                 if not used:
                     outer.node.body = [st for st in outer.node.body if st is not fi.node]
+    # unknown generator functions whose every use is `list(gen(...))`: the generator is the function that appends what it
+    # yields to a list and returns it (nothing of the consumer runs between two yields), and the list() wrapper goes away
+    for mi in list(prog.modules.values()):
+        for gfi in [f for f in prog.funcs.values() if f.mod is mi and f.qname not in known and f.outer is None and not f.nested]:
+            ys = [n for n in ast.walk(gfi.node) if isinstance(n, (ast.Yield, ast.YieldFrom))]
+            if not ys or gfi.decorators and gfi.decorators != ["staticmethod"]:
+                continue
+            if any(isinstance(r, ast.Return) and r.value is not None for r in ast.walk(gfi.node)):
+                continue
+            stmts_ok = all(isinstance(_parent_stmt(gfi.node, y), ast.Expr) and _parent_stmt(gfi.node, y).value is y and (isinstance(y, ast.YieldFrom) or y.value is not None) for y in ys)
+            if not stmts_ok:
+                continue
+            refs, wrapped = 0, []
+            for n in ast.walk(mi.tree):
+                if isinstance(n, ast.Call) and isinstance(n.func, ast.Name) and n.func.id == "list" and len(n.args) == 1 and not n.keywords and isinstance(n.args[0], ast.Call):
+                    f_ = n.args[0].func
+                    if (isinstance(f_, ast.Name) and f_.id == gfi.name and gfi.cls is None) or (isinstance(f_, ast.Attribute) and f_.attr == gfi.name and gfi.cls is not None):
+                        wrapped.append(n)
+            for n in ast.walk(mi.tree):
+                if (isinstance(n, ast.Name) and n.id == gfi.name and gfi.cls is None) or (isinstance(n, ast.Attribute) and n.attr == gfi.name and gfi.cls is not None):
+                    refs += 1
+            if not wrapped or refs != len(wrapped):
+                continue
+            acc = "result" + SUFFIX
+
+            class Y(ast.NodeTransformer):
+                def visit_FunctionDef(self, n):
+                    return n if n is not gfi.node else self.generic_visit(n)
+
+                def visit_Lambda(self, n):
+                    return n
+
+                def visit_Expr(self, n):
+                    v = n.value
+                    if isinstance(v, ast.Yield):
+                        new = ast.Expr(value=ast.Call(func=ast.Attribute(value=ast.Name(id=acc, ctx=ast.Load()), attr="append", ctx=ast.Load()), args=[v.value], keywords=[]))
+                    elif isinstance(v, ast.YieldFrom):
+                        new = ast.AugAssign(target=ast.Name(id=acc, ctx=ast.Store()), op=ast.Add(), value=v.value)
+                    else:
+                        return n
+                    ast.copy_location(new, n)
+                    ast.fix_missing_locations(new)
+                    return new
+
+                def visit_Return(self, n):
+                    return ast.copy_location(ast.Return(value=ast.Name(id=acc, ctx=ast.Load())), n)
+
+            Y().visit(gfi.node)
+            doc = 1 if gfi.node.body and isinstance(gfi.node.body[0], ast.Expr) and isinstance(gfi.node.body[0].value, ast.Constant) else 0
+            gfi.node.body.insert(doc, ast.copy_location(ast.Assign(targets=[ast.Name(id=acc, ctx=ast.Store())], value=ast.List(elts=[], ctx=ast.Load())), gfi.node.body[0]))
+            gfi.node.body.append(ast.copy_location(ast.Return(value=ast.Name(id=acc, ctx=ast.Load())), gfi.node.body[-1]))
+            gfi.node.returns = None
+            ast.fix_missing_locations(gfi.node)
+            for w in wrapped:
+                inner = w.args[0]
+                w.func, w.args, w.keywords = inner.func, inner.args, inner.keywords
+            done.append((gfi.qname, "<generator consumed by list(): accumulates and returns the list>"))
     for mi in list(prog.modules.values()):
         cands = {}
         for fi in prog.funcs.values():
